@@ -26,7 +26,12 @@ import (
 )
 
 const verifDir = "/verif"
-const repoDir = "/repo"
+var repoDir = func() string {
+	if d := os.Getenv("VERIF_REPO"); d != "" {
+		return d // a scratch worktree (regression runs over seeded changes); default is /repo
+	}
+	return "/repo"
+}()
 
 type tierCfg struct {
 	Runs      uint64  // total runs (plain build)
